@@ -101,6 +101,7 @@ func runC11(env *core.Env, ci any) {
 	env.Sched.Knobs.MaxSteps = 400000
 	env.Sched.Knobs.Horizon = 3 * time.Hour
 	sut.Install(env)
+	env.AcctInexact = true // (C13 mode) clients here abandon exchanges on purpose: only gauges and inequalities are judged
 	ca := simtls.NewCA("verifsim CA")
 	now := func() time.Duration { return env.Sched.Elapsed() }
 	var mu sync.Mutex
